@@ -1,9 +1,9 @@
 #!/bin/sh
-# runs every stored seed against the check of the property it breaks (scratch worktree, committed evidence untouched)
+# runs every stored seed against the check of the property it breaks (scratch worktrees, committed evidence untouched),
+# SEED_JOBS at a time (default 4, each with VERIF_PROCS=4); results sorted into seeded/RESULTS.txt
 cd /verif
-: > seeded/RESULTS.txt
-for d in seeded/C*-*/; do
-  n=$(basename $d)
-  tools/seed_matrix.sh $n >> seeded/RESULTS.txt 2>&1
-done
+tmp=$(mktemp /var/tmp/seed_all.XXXXXX)
+ls -d seeded/C*-*/ | xargs -n 1 basename | xargs -P ${SEED_JOBS:-4} -n 1 tools/seed_matrix.sh > "$tmp" 2>&1
+sort -V "$tmp" > seeded/RESULTS.txt
+rm -f "$tmp"
 cat seeded/RESULTS.txt
